@@ -3,9 +3,10 @@
 Oracle (the property itself, on the real code): random schemas (scalar attributes, some lazy; one-to-one, many-to-one,
 many-to-many, symmetric and self relations; single and composite primary keys) and random histories (observations of attribute
 values, related objects, collection contents / count / is_empty / len / contains, queries, N+1 iteration patterns, interleaved
-with creates, updates, collection changes, deletes, flush / commit / rollback) are executed on real Pony FIVE times from the same
+with creates, updates, collection changes, deletes, flush / commit / rollback) are executed on real Pony SIX times from the same
 committed database file:
-    default | every attribute lazy=True | prefetch() of every entity and relation on every query | nplus1_threshold=0 | nplus1_threshold=10**9
+    default | every scalar attribute and collection lazy=True | ... and every reference attribute lazy=True too |
+    prefetch() of every entity and relation on every query | nplus1_threshold=0 | nplus1_threshold=10**9
 (the entity classes are rebuilt for each strategy).  The observation logs and the final table contents must be identical; only
 the number of SELECT statements (counted through the tracing connection) may differ.  A difference is shrunk (ddmin over the
 history) and reported with the minimal history.
@@ -23,7 +24,7 @@ from pony.orm import core
 import ponyutil
 from tracing import Tracer
 
-STRATEGIES = ['default', 'lazy', 'prefetch', 'n0', 'ninf']
+STRATEGIES = ['default', 'lazy', 'lazyref', 'prefetch', 'n0', 'ninf']
 
 # ------------------------------------------------------------------------------------------------ schema
 
@@ -46,9 +47,10 @@ class World(object):
     """real entity classes for one strategy, bound to one SQLite file"""
     def __init__(self, schema, strategy, path, create):
         self.schema = schema; self.strategy = strategy
-        self.tracer = Tracer()
+        self.tracer = Tracer(); self._seen = 0; self._nsel = 0
         self.db = db = Database()
-        lazy = strategy == 'lazy'
+        lazy = strategy in ('lazy', 'lazyref')      # scalar attributes and collections lazy
+        lazyref = strategy == 'lazyref'             # ... and the reference attributes too
         setkw = {}
         if strategy == 'n0': setkw['nplus1_threshold'] = 0
         if strategy == 'ninf': setkw['nplus1_threshold'] = 10 ** 9
@@ -65,7 +67,7 @@ class World(object):
         for i, r in enumerate(schema['rels']):
             k = r['kind']; na = 'r%da' % i; nb = 'r%db' % i
             A = 'E%d' % r['a']; B = 'E%d' % r['b']
-            rkw = {'lazy': True} if lazy else {}
+            rkw = {'lazy': True} if lazyref else {}
             skw = dict(setkw);
             if lazy: skw['lazy'] = True
             if k == 'o2o':
@@ -117,12 +119,27 @@ class World(object):
     def q(self, query):
         return query.prefetch(*self.pf) if self.strategy == 'prefetch' else query
     def selects(self):
-        return sum(1 for ev in self.tracer.events if ev.get('kind') == 'select')
+        ev = self.tracer.events
+        while self._seen < len(ev):
+            if ev[self._seen].get('kind') == 'select': self._nsel += 1
+            self._seen += 1
+        return self._nsel
 
 
 def canon_val(w, v):
     if isinstance(v, core.Entity): return ['obj', w.classes.index(type(v)), w.pkof(v)]
     return v
+
+
+def do_read(w, op, o, x=None):
+    k = op[0]
+    if k == 'attr': return ['ok', canon_val(w, getattr(o, op[3]))]
+    if k == 'coll': return ['ok', sorted(w.pkof(i) for i in getattr(o, op[3]))]
+    if k == 'count': return ['ok', getattr(o, op[3]).count()]
+    if k == 'empty': return ['ok', getattr(o, op[3]).is_empty()]
+    if k == 'len': return ['ok', len(getattr(o, op[3]))]
+    if k == 'contains': return ['ok', x in getattr(o, op[3])]
+    raise RuntimeError(k)
 
 
 def exec_op(w, op):
@@ -323,6 +340,8 @@ def gen_mod(rng, schema):
         name = rng.choice(['tag', 'v', 's'])
         return ['set', e, pk, name, {'tag': rng.choice([0, 1, 2, 3]), 'v': rng.choice([None, 5, 8]), 's': rng.choice([None, 'x', 'zz'])}[name]]
     if k == 'create':
+        FRESH[0] += 1
+        pk = (10 + FRESH[0]) if schema['ents'][e]['pk'] == 'int' else (400 + FRESH[0])     # never an existing row: a duplicate key is detected at different moments
         rv = [[name, [t, rng.choice(pks_of(schema, t))]] for name, t, req in refs[e] if req or rng.random() < 0.5]
         cv = [[name, [[t, rng.choice(pks_of(schema, t))]]] for name, t in colls[e] if rng.random() < 0.4]
         return ['create', e, pk, rng.choice([0, 1, 2]), rng.choice([None, 5]), rng.choice([None, 'n']), rv, cv]
@@ -336,7 +355,10 @@ def gen_mod(rng, schema):
     if k == 'delete': return ['delete', e, pk]
     return [k]
 
+FRESH = [0]
+
 def gen_history(rng, schema, n):
+    FRESH[0] = 0
     hist = []
     for _ in range(n):
         r = rng.random()
@@ -351,6 +373,13 @@ def gen_history(rng, schema, n):
 
 
 # ------------------------------------------------------------------------------------------------ model tie
+PENDING = []
+LAZYREF_KEY = 'lazy-reference:one-to-many-collection-loads-empty'
+LAZYREF_WHAT = ('a one-to-many collection whose reverse reference attribute is declared lazy=True loads as EMPTY (and is_empty() is True, count() 0): the batch-load / is_empty SELECT '
+                'leaves the lazy reference column out, so _db_set_ never links the fetched rows to the collection, which is then marked fully loaded')
+COUNT_KEY = 'm2m-count-after-flush:added-removed-not-reset-on-second-side'
+COUNT_WHAT = ('SetInstance.count() after a FLUSHED change of a many-to-many collection is off by the change (e.g. -1 after the only item was removed): _calc_modified_m2m resets '
+              'setdata.added / removed only for the side it processes first and skips the reverse side (`if reverse in modified_m2m: continue`), so count() subtracts / adds them again')
 
 class Tie(object):
     """snapshot / driver requests / coherence check for the read-only tail of one run"""
@@ -427,8 +456,13 @@ class Tie(object):
             truth = sorted(set(self.dbcolls.get((o, c), [])))
             bad = (not set(items) <= set(truth)) or (full and items != truth) or (count is not None and count != len(truth)) or (set(absent) & set(truth))
             if bad:
-                self.ctx.divergence('the real SetData disagrees with the database (model invariant Coherent)', {'schema': self.schema, 'strategy': self.strategy, 'after': op, 'obj': o, 'attr': c},
-                                    model=truth, impl=[items, full, count, absent])
+                cls = w.classes[o // 1000]; attr = [a for a in cls._attrs_ if self.aidx(cls, a) == c][0]
+                if full and not items and truth and not attr.reverse.is_collection and attr.reverse.lazy:
+                    self.ctx.violation(LAZYREF_WHAT, {'schema': self.schema, 'strategy': self.strategy, 'after': op, 'owner': o, 'collection': attr.name, 'database': truth},
+                                       observed=[items, full, count], expected=truth, key=LAZYREF_KEY)
+                else:
+                    self.ctx.divergence('the real SetData disagrees with the database (model invariant Coherent)', {'schema': self.schema, 'strategy': self.strategy, 'after': op, 'obj': o, 'attr': c},
+                                        model=truth, impl=[items, full, count, absent])
     def op(self, w, op):
         """execute one read with the model request prepared from the state before it"""
         k = op[0]
@@ -454,7 +488,8 @@ class Tie(object):
                 sd = o._vals_.get(attr); rsd = x._vals_.get(attr.reverse)
                 via_reverse = sd is None and rsd is not None and rsd.is_fully_loaded
         n0 = w.selects()
-        r = exec_op(w, op)
+        try: r = do_read(w, op, o, x)
+        except Exception as e: r = ['exc', type(e).__name__]
         loaded = w.selects() > n0
         sd = o._vals_.get(attr) if attr.is_collection else None
         after = None if sd is None else [sorted(self.oid(w.classes.index(type(i)), i.id) for i in sd), bool(sd.is_fully_loaded), sd.count]
@@ -465,10 +500,14 @@ class Tie(object):
         self.coherent(w, op)
         return r
     def check(self):
-        ctx = self.ctx
-        if not self.requests or not ctx.driver.ok: return
-        outs = ctx.driver('C23', [r[0] for r in self.requests])
-        for (req, real, loaded, after, d), out in zip(self.requests, outs):
+        PENDING.extend(self.requests); self.requests = []
+    @staticmethod
+    def flush_pending(ctx):
+        if not PENDING or not ctx.driver.ok:
+            del PENDING[:]; return
+        outs = ctx.driver('C23', [r[0] for r in PENDING])
+        reqs = list(PENDING); del PENDING[:]
+        for (req, real, loaded, after, d), out in zip(reqs, outs):
             if 'driver_error' in out:
                 ctx.divergence('driver error', d, model=out, impl=real); continue
             ans = out['ans']; k = d['kind']
@@ -476,11 +515,8 @@ class Tie(object):
             rv = real[1] if real[0] == 'ok' else real
             if isinstance(rv, list) and rv and rv[0] == 'obj': rv = rv[1] * 1000 + rv[2]
             elif isinstance(rv, str): rv = {'x': 101, 'yy': 102, 'zz': 103, 'n': 104}.get(rv, 199)
-            if k == 'coll': rv = [d['op'][1] * 0 + self_oid for self_oid in []] or rv
             if d['ref_contains']: m = (m == d['owner'])
-            if k == 'coll' and isinstance(m, list):
-                te = None
-                m = sorted(x % 1000 for x in m)
+            if k == 'coll' and isinstance(m, list): m = sorted(x % 1000 for x in m)
             ctx.count('tie:%s:%s' % (k, out['how']))
             if m != rv:
                 ctx.divergence('a read on the real session and Model.Loading.read on its snapshot give different answers', d, model=m, impl=rv); continue
@@ -549,7 +585,13 @@ def report(ctx, schema, population, hist, base, d):
     i = next((i for i, (a, b) in enumerate(zip(lg['default'], lg[st0])) if a != b), -1)
     kinds = sorted(set(schema['rels'][int(o[3][1:-1])]['kind'] for o in h if len(o) > 3 and isinstance(o[3], str) and o[3].startswith('r') and o[3][1:-1].isdigit()))
     key = 'loading:%s:%s:%s' % (st0, '>'.join(op_key(o) for o in h if o[0] != 'end'), '+'.join(kinds))
-    ctx.violation('the %s loading strategy changes what the program observes (step %d of the minimal history)' % (st0, i),
+    what = 'the %s loading strategy changes what the program observes (step %d of the minimal history)' % (st0, i)
+    last = h[i] if 0 <= i < len(h) else ['?']
+    if st0 == 'lazyref' and last[0] in ('coll', 'count', 'empty', 'len', 'contains', 'itercoll', 'itercount', 'collload') and 'm2o' in kinds + ['m2o' if any(r['kind'] == 'm2o' for r in schema['rels']) else '']:
+        key, what = LAZYREF_KEY, LAZYREF_WHAT
+    elif last[0] in ('count', 'itercount') and any(o[0] in ('delete', 'remove', 'add', 'create', 'setref') for o in h[:i]) and any(r['kind'] in ('m2m', 'symm') for r in schema['rels']):
+        key, what = COUNT_KEY, COUNT_WHAT
+    ctx.violation(what,
                   {'schema': schema, 'population': pop, 'history': h, 'strategy': st0},
                   observed={st0: lg[st0][i] if 0 <= i < len(lg[st0]) else None}, expected={'default': lg['default'][i] if 0 <= i < len(lg['default']) else None}, key=key)
 
@@ -562,11 +604,13 @@ def run(ctx):
         n = ctx.scale(45, 700)
         found = 0
         for it in range(n):
-            schema = gen_schema(rng)
-            population = gen_population(rng, schema)
+            for attempt in range(20):
+                schema = gen_schema(rng)
+                population = gen_population(rng, schema)
+                if populate(schema, population, base): break
+                ctx.count('population-rejected')
+            else: continue
             hist, tail = gen_history(rng, schema, rng.choice([6, 12, 20]))
-            if not populate(schema, population, base):
-                ctx.count('population-rejected'); continue
             logs, sel, ties = run_all(ctx, schema, population, hist, tail, base)
             ctx.case({'schema': schema, 'history': hist[:5], 'len': len(hist)}, kind='oracle:five-strategies')
             for op, r in zip(hist, logs['default']):
@@ -574,11 +618,13 @@ def run(ctx):
             for r in schema['rels']: ctx.count('rel:' + r['kind'])
             for st in STRATEGIES: ctx.count('selects:' + st, sel[st])
             for t in ties: t.check()
+            if len(PENDING) > 1500: Tie.flush_pending(ctx)
             d = first_diff(logs)
             if d is not None:
                 found += 1
                 if found <= 4: report(ctx, schema, population, hist, base, d)
         ctx.count('histories', n)
+        Tie.flush_pending(ctx)
     finally:
         ponyutil.rmtree(work)
 
